@@ -277,6 +277,91 @@ fn apply_text(c: &mut TextChunk<'_>, op: &Op) {
 
 type Log = Rc<RefCell<Vec<String>>>;
 
+// ------------------------------------------------------------------------------------------------
+// oracles (known findings are tagged with the site tags of known_findings.json)
+
+#[derive(Clone, Copy, PartialEq, Eq, Debug)]
+enum Fate {
+    NoContent,
+    Unclosed,
+    Own,
+    Implicit,
+}
+
+#[derive(Clone, Debug)]
+struct Info {
+    name: String, // lower case
+    ns: u8,
+    parent: Option<usize>,
+    fate: Fate,
+}
+
+/// Independent pre-pass: the same input, one write, a single `*` observer that records for every
+/// element (keyed by the start offset of its start tag) its namespace, its parent on the open-element
+/// stack, and how it ended: by an end tag of its own name, by another end tag (implicitly), or never.
+fn element_fates(input: &[u8]) -> Vec<(usize, Info)> {
+    let infos: Rc<RefCell<Vec<(usize, Info)>>> = Rc::new(RefCell::new(vec![]));
+    let stack: Rc<RefCell<Vec<usize>>> = Rc::new(RefCell::new(vec![]));
+    {
+        let (infos2, stack2) = (infos.clone(), stack.clone());
+        let settings = Settings::new().append_element_content_handler((
+            Cow::Owned("*".parse::<Selector>().unwrap()),
+            ElementContentHandlers::default().element(move |el: &mut Element<'_, '_>| {
+                let id = infos2.borrow().len();
+                let chc = el.can_have_content();
+                infos2.borrow_mut().push((
+                    el.source_location().bytes().start,
+                    Info {
+                        name: el.tag_name(),
+                        ns: ns_num_uri(el.namespace_uri()),
+                        parent: stack2.borrow().last().copied(),
+                        fate: if chc { Fate::Unclosed } else { Fate::NoContent },
+                    },
+                ));
+                if chc {
+                    stack2.borrow_mut().push(id);
+                    let (infos3, stack3) = (infos2.clone(), stack2.clone());
+                    let _ = el.on_end_tag(Box::new(move |et: &mut EndTag<'_>| {
+                        let own = et.name() == infos3.borrow()[id].1.name;
+                        infos3.borrow_mut()[id].1.fate = if own { Fate::Own } else { Fate::Implicit };
+                        let mut st = stack3.borrow_mut();
+                        if let Some(pos) = st.iter().rposition(|x| *x == id) {
+                            st.truncate(pos);
+                        }
+                        Ok(())
+                    }));
+                }
+                Ok(())
+            }),
+        ));
+        let mut rw = HtmlRewriter::new(settings, |_: &[u8]| {});
+        if rw.write(input).is_ok() {
+            let _ = rw.end();
+        }
+    }
+    let v = infos.borrow().clone();
+    v
+}
+
+const SVG_IP: [&str; 3] = ["desc", "title", "foreignobject"];
+const MATH_IP: [&str; 5] = ["mi", "mo", "mn", "ms", "mtext"];
+
+struct Oracle {
+    fates: std::collections::HashMap<usize, Info>,
+    by_index: Vec<Info>,
+    /// (start offset, tag) of elements that got end-tag-deferred edits
+    deferred: RefCell<Vec<usize>>,
+    flags: RefCell<Vec<String>>,
+}
+
+fn has_deferred(ops: &[Op]) -> bool {
+    ops.iter().any(|o| match o {
+        Op::After(_) | Op::Append(_) | Op::Replace(_) | Op::Remove | Op::RemoveKeep | Op::SetTagName(_) => true,
+        Op::OnEndTag(e) => !e.is_empty(),
+        _ => false,
+    })
+}
+
 fn ns_num_uri(uri: &str) -> u8 {
     match uri {
         "http://www.w3.org/1999/xhtml" => 0,
@@ -297,12 +382,44 @@ fn pick(s: &Scripts, k: usize) -> (&[Op], bool) {
     if s.is_empty() { (&[], false) } else { (&s[k % s.len()].0, s[k % s.len()].1) }
 }
 
-fn element_handler(h: usize, scripts: Scripts, log: Log) -> impl FnMut(&mut Element<'_, '_>) -> HRes {
+fn element_handler(h: usize, scripts: Scripts, log: Log, oracle: Rc<Oracle>) -> impl FnMut(&mut Element<'_, '_>) -> HRes {
     let cnt = Cell::new(0usize);
     move |el: &mut Element<'_, '_>| {
         let k = cnt.get();
         cnt.set(k + 1);
         let loc = el.source_location().bytes();
+        // ---- oracles on what the handler reads (C16)
+        for a in el.attributes() {
+            if el.get_attribute(&a.name()).is_none() {
+                oracle.flags.borrow_mut().push(format!(
+                    " ||ORACLE:C16:F8-lookup-rejected-name get_attribute({:?}) = None although attributes() lists it (tag at {})",
+                    a.name(),
+                    loc.start
+                ));
+            }
+        }
+        if let Some(info) = oracle.fates.get(&loc.start) {
+            if let Some(p) = info.parent.and_then(|p| oracle.by_index.get(p)) {
+                let ns = ns_num_uri(el.namespace_uri());
+                let name = el.tag_name();
+                let ann = p.ns == 2
+                    && name == "annotation-xml"
+                    && !el.is_self_closing()
+                    && el.get_attribute("encoding").is_some_and(|v| {
+                        let v = v.to_ascii_lowercase();
+                        v == "text/html" || v == "application/xhtml+xml"
+                    });
+                if ns == 0 && ((p.ns == 1 && SVG_IP.contains(&name.as_str())) || (p.ns == 2 && MATH_IP.contains(&name.as_str())) || ann) {
+                    oracle.flags.borrow_mut().push(format!(
+                        " ||ORACLE:C16:F9-integration-point-namespace <{}> at {} inside <{}> (ns {}): namespace_uri XHTML",
+                        name, loc.start, p.name, p.ns
+                    ));
+                }
+            }
+        }
+        if el.can_have_content() && has_deferred(pick(&scripts, k).0) {
+            oracle.deferred.borrow_mut().push(loc.start);
+        }
         let attrs: Vec<String> = el
             .attributes()
             .iter()
@@ -491,6 +608,13 @@ pub fn run(line: &str) -> String {
     }
     let log: Log = Rc::new(RefCell::new(Vec::new()));
     let out = Rc::new(RefCell::new(Vec::<u8>::new()));
+    let fates = if sels.iter().any(|e| e.element.is_some()) { element_fates(&input) } else { vec![] };
+    let oracle = Rc::new(Oracle {
+        fates: fates.iter().cloned().collect(),
+        by_index: fates.iter().map(|(_, i)| i.clone()).collect(),
+        deferred: RefCell::new(vec![]),
+        flags: RefCell::new(vec![]),
+    });
 
     let mut mem = MemorySettings::new()
         .with_preallocated_parsing_buffer_size(0)
@@ -509,7 +633,7 @@ pub fn run(line: &str) -> String {
         };
         let mut h = ElementContentHandlers::default();
         if let Some(s) = e.element {
-            h = h.element(element_handler(i, s, log.clone()));
+            h = h.element(element_handler(i, s, log.clone(), oracle.clone()));
         }
         if let Some(s) = e.comments {
             h = h.comments(comment_handler(i, s, log.clone()));
@@ -567,10 +691,28 @@ pub fn run(line: &str) -> String {
         }
     }
     let log = log.borrow();
+    // ---- C07: edits deferred to the end tag of an element that never gets an end tag of its own
+    let mut flags: Vec<String> = oracle.flags.borrow().clone();
+    if results.iter().all(|r| r == "ok") {
+        for off in oracle.deferred.borrow().iter() {
+            match oracle.fates.get(off).map(|i| (i.fate, i.name.clone())) {
+                Some((Fate::Implicit, name)) => flags.push(format!(
+                    " ||ORACLE:C07:implicit-close <{name}> at {off} has end-tag-deferred edits but is closed by another element's end tag"
+                )),
+                Some((Fate::Unclosed, name)) => flags.push(format!(
+                    " ||ORACLE:C07:unclosed-eof <{name}> at {off} has end-tag-deferred edits but is still open at the end of the document"
+                )),
+                _ => {}
+            }
+        }
+    }
+    flags.sort();
+    flags.dedup();
     format!(
-        "{} # {} # {}",
+        "{} # {} # {}{}",
         results.join(";"),
         outs.join(";"),
-        if log.is_empty() { "-".into() } else { log.join(";") }
+        if log.is_empty() { "-".into() } else { log.join(";") },
+        flags.join("")
     )
 }
